@@ -149,4 +149,23 @@ PROPS = {
               {"asan": {"workers": 8}, "plain": {"workers": 4}, "tsan": {"workers": 4}},
               {"asan": {"workers": 8}, "plain": {"workers": 4}, "tsan": {"workers": 4}}),
     ),
+    "C11": dict(
+        level="exploration",
+        asan_options="detect_stack_use_after_return=1",
+        rule=("one plan = one generated program of <=25 statements over an instrumented class (create, copy, clone, store in vector / map / "
+              "attribute, capture, bind, pass by value / const& / & / * / shared_ptr, return, drop in nested scopes, converted temporaries, "
+              "escapes through a C++-held shared_ptr, a Holder object, a global or the eval result, closures capturing a loop variable). It is "
+              "executed fault-free, with the script-level throw sites armed, and with EVERY instrumented constructor/copy call in turn throwing "
+              "(seeded sample of 8 above 40 calls). evaluations = executions; distinct non-trivial = executions in which an injected constructor "
+              "failure fired, plus programs. Oracle: instance registry (exactly-once destruction, canary on every access, live set == reachable "
+              "set at quiescence, empty live set after engine destruction) + ASan with detect_stack_use_after_return=1."),
+        real_vs_stub=REAL,
+        assumptions=COMMON_ASSUME + ["evaluated on the thread that owns the engine only, as the property states",
+                                     "script-made reference cycles and escaping closures with captures are not generated (the reachable set could not be computed)",
+                                     "quiescence = after the top-level eval returned or threw and one further eval containing a function call flushed the conversion saves"],
+        expected_probes=["fault_constructor_throw", "fault_script_throw", "probe_scope_left_by_exception", "fault_free_program_returned"],
+        **two(40, 420,
+              {"asan": {"workers": 10}, "plain": {"workers": 6}},
+              {"asan": {"workers": 10}, "plain": {"workers": 6}}),
+    ),
 }
